@@ -653,6 +653,7 @@ def srcOK (n : Nat) : FSrc → Prop
   | .num _ vals => vals.length = n
   | .cat _ vals levels _ => vals.length = n ∧ levels.Nodup
   | .one m => m = n
+  | .scalar _ _ m => m = n
 
 theorem encodeSparse_fst (vals : List (Option String)) (levels declared : Option (List String)) (df : Bool) :
     (encodeSparse vals levels declared df).1 = (encodeDense vals levels declared df).1 := rfl
@@ -699,6 +700,13 @@ theorem encodeS_hom (n : Nat) (f : FSrc) (hf : srcOK n f) :
     simp only [FSrc.encodeS, List.mem_singleton] at hx
     subst hx
     exact ⟨wf_ofDense _, by simp [SCol.ofDense, hf]⟩
+  | scalar name v m =>
+    simp only [srcOK] at hf
+    refine ⟨by simp [FSrc.encodeS, FSrc.encodeD, mapI, toDense_ofDense], ?_⟩
+    intro x hx
+    simp only [FSrc.encodeS, List.mem_singleton] at hx
+    subst hx
+    exact ⟨wf_ofDense _, by simp [SCol.ofDense, broadcast, hf]⟩
   | cat name vals levels reduced =>
     obtain ⟨hlen, hnd⟩ := hf
     have h2 := encodeSparse_snd vals (some levels) none false (catsOf_some_nodup vals levels hnd)
